@@ -2,7 +2,7 @@
 from __future__ import annotations
 
 from sa.cfront import LIB_TUS
-from . import lib_file, lib_err, lib_py, lib_gatefn
+from . import scopes, lib_file, lib_err, lib_py, lib_gatefn, lib_mem
 
 LEVEL = "other"
 EXPLANATION = ("Every I/O and kastore result is checked and a short read can never pass as a full one; every validation guard of the "
@@ -28,3 +28,4 @@ def run(ctx):
     lib_err.module_handlers(ctx, P, E)
     lib_gatefn.treeseq_init(ctx, P)
     lib_py.always_raises(ctx, py, "util", "raise_known_file_format_errors")
+    lib_mem.c_lints(ctx, ctx.program(), scopes.lib_scope("C10"))
